@@ -13,12 +13,15 @@
    The model is evaluated by vm_compute on the harness messages (fixed and variable length) and compared
    with crypto/sha256, and the real gadget is compared with the same reference on the same messages.
 
-   Decided by differential runs only (no Gallina model): SHA-3 / Keccak sponge padding and Keccak-f,
-   RIPEMD-160, MiMC on the 7 curves, Poseidon2, Merkle proofs, Fiat-Shamir transcripts — every length
+   The same for the SHA-3 / Keccak family (Std/Keccak.v: executable Keccak-f[1600], sponge, pad10*1 with the
+   domain-separation byte, paddingFixedWidth and absorbingFixedWidth): C15_sponge_* below, compared with
+   golang.org/x/crypto/sha3 on the harness messages.
+
+   Decided by differential runs only (no Gallina model): RIPEMD-160, MiMC on the 7 curves, Poseidon2, Merkle proofs, Fiat-Shamir transcripts — every length
    around every rate / block boundary, every actual length of the variable-length variants for two
    maxima, several chunkings, wrong digests rejected. *)
 From Coq Require Import NArith Arith List.
-From GnarkV Require Import Std.Sha256.
+From GnarkV Require Import Std.Sha256 Std.Keccak.
 Import ListNotations.
 
 Theorem C15_fixed_total_spec : forall len, fixed_total len mod 64 = 0 /\ len + 9 <= fixed_total len < len + 9 + 64.
@@ -46,7 +49,32 @@ Theorem C15_sha256_abc : sha256 [97; 98; 99]%N =
    0xb0; 0x03; 0x61; 0xa3; 0x96; 0x17; 0x7a; 0x9c; 0xb4; 0x10; 0xff; 0x61; 0xf2; 0x00; 0x15; 0xad]%N.
 Proof. exact sha256_abc. Qed.
 
+(* ---- SHA-3 / Keccak sponge (Std/Keccak.v): any rate, any domain-separation byte ---- *)
+Theorem C15_sponge_total_spec : forall rate len, 0 < rate ->
+  sp_total rate len mod rate = 0 /\ len < sp_total rate len <= len + rate.
+Proof. exact sp_total_spec. Qed.
+
+Theorem C15_sponge_varlen_byte_eq : forall ds rate buf minLen maxLen len k,
+  0 < rate -> minLen <= len <= maxLen -> k < sp_total rate len ->
+  sp_varlen_byte ds rate buf minLen maxLen len k = sp_fixed_byte ds rate (fun i => if i <? maxLen then buf i else 0%N) len k.
+Proof. exact sp_varlen_byte_eq. Qed.
+
+Theorem C15_sponge_varlen_sum_eq : forall ds rate outlen buf minLen maxLen len,
+  0 < rate -> minLen <= len <= maxLen ->
+  sponge_varlen ds rate outlen buf minLen maxLen len
+  = sponge_fixed ds rate outlen (fun i => if i <? maxLen then buf i else 0%N) len.
+Proof. exact sp_varlen_sum_eq. Qed.
+
+Theorem C15_sha3_256_empty : sponge 6%N 136 32 [] =
+  [0xa7; 0xff; 0xc6; 0xf8; 0xbf; 0x1e; 0xd7; 0x66; 0x51; 0xc1; 0x47; 0x56; 0xa0; 0x61; 0xd6; 0x62;
+   0xf5; 0x80; 0xff; 0x4d; 0xe4; 0x3b; 0x49; 0xfa; 0x82; 0xd8; 0x0a; 0x4b; 0x80; 0xf8; 0x43; 0x4a]%N.
+Proof. exact sha3_256_empty. Qed.
+
 Print Assumptions C15_fixed_total_spec.
+Print Assumptions C15_sponge_total_spec.
+Print Assumptions C15_sponge_varlen_byte_eq.
+Print Assumptions C15_sponge_varlen_sum_eq.
+Print Assumptions C15_sha3_256_empty.
 Print Assumptions C15_var_total_eq.
 Print Assumptions C15_varlen_byte_eq.
 Print Assumptions C15_hash_depends_on_prefix.
